@@ -207,6 +207,36 @@ func (s *chainSc) Plan(w *World) {
 		s.clients6 = append(s.clients6, c6)
 	}
 	w.Sim.SetPoolReuse(int(t.Draw(3)))
+	if !w.UseConfigFile && s.wantFail == "" && t.Draw(3) == 0 {
+		// clients that are already sending while the server starts: a socket that is bound receives, and whatever
+		// answers must be the configured chain
+		for i, k := 0, t.Range(1, 4); i < k; i++ {
+			i := i
+			v6 := s.has6 && (!s.has4 || t.Draw(2) == 1)
+			w.Sim.After(int64(t.Draw(4))*1000, func() { s.one(w, i, v6) })
+		}
+	}
+}
+
+// one sends one well-formed client message.
+func (s *chainSc) one(w *World, i int, v6 bool) {
+	t := w.T
+	if v6 {
+		c := s.clients6[i%3]
+		mt := []dhcpv6.MessageType{dhcpv6.MessageTypeSolicit, dhcpv6.MessageTypeInformationRequest, dhcpv6.MessageTypeRequest, dhcpv6.MessageTypeRebind}[t.Pick(4)]
+		m := w.build6(c, mt)
+		if mt == dhcpv6.MessageTypeSolicit && t.Draw(2) == 1 {
+			m.AddOption(&dhcpv6.OptionGeneric{OptionCode: dhcpv6.OptionRapidCommit})
+		}
+		w.send6(c, m, mt.String())
+		return
+	}
+	c := s.clients4[i%3]
+	mt := dhcpv4.MessageTypeDiscover
+	if t.Draw(2) == 1 {
+		mt = dhcpv4.MessageTypeRequest
+	}
+	w.send4(c, w.build4(c, mt), mt.String())
 }
 
 func (s *chainSc) OnStarted(w *World, inc int, err string) {
@@ -232,24 +262,7 @@ func (s *chainSc) OnStarted(w *World, inc int, err string) {
 		}
 		v6 := s.has6 && (!s.has4 || t.Draw(2) == 1)
 		i := i
-		w.Sim.After(at, func() {
-			if v6 {
-				c := s.clients6[i%3]
-				mt := []dhcpv6.MessageType{dhcpv6.MessageTypeSolicit, dhcpv6.MessageTypeInformationRequest, dhcpv6.MessageTypeRequest, dhcpv6.MessageTypeRebind}[t.Pick(4)]
-				m := w.build6(c, mt)
-				if mt == dhcpv6.MessageTypeSolicit && t.Draw(2) == 1 {
-					m.AddOption(&dhcpv6.OptionGeneric{OptionCode: dhcpv6.OptionRapidCommit})
-				}
-				w.send6(c, m, mt.String())
-			} else {
-				c := s.clients4[i%3]
-				mt := dhcpv4.MessageTypeDiscover
-				if t.Draw(2) == 1 {
-					mt = dhcpv4.MessageTypeRequest
-				}
-				w.send4(c, w.build4(c, mt), mt.String())
-			}
-		})
+		w.Sim.After(at, func() { s.one(w, i, v6) })
 	}
 }
 
